@@ -1,5 +1,5 @@
 """Engine E1 "genbatch": generated grammars -> the tree's generator -> rustc -> run checks."""
-import os, sys, json, time, subprocess, hashlib, shutil
+import re, os, sys, json, time, subprocess, hashlib, shutil
 from concurrent.futures import ThreadPoolExecutor
 from . import ws
 from .ws import log
@@ -23,18 +23,18 @@ PLANS = {
 }
 
 RULES = {
-    "C05": "metamorphic + histories: base grammars of profile 'memo' (shared-prefix alternatives, nullable rules, rules reached at one offset through several contexts, lookaheads calling rules, failing checks, externs) and, for half of the groups, profile 'memows' (skipping and non-skipping 'twin' callers of one offset-sensitive callee, heavy whitespace injection), each compiled in 4 variants (no rule / every rule / two random subsets of rules marked @memoize); for every generated input all variants must return the same ok flag and Debug tree and agree with the reference interpreter; plus generated histories (3-16 inputs, every second one an equal-length variant of its predecessor, re-parsed in a generated order with repetitions) on the all-memoized variant: every result equals the first-time result. Non-trivial = the oracle sees a memoized (rule, offset) evaluated >= 2 times in that parse (a cache hit must have happened), or a history with equal-length inputs; distinct (grammar group, rule, input) / distinct history.",
+    "C05": "metamorphic + histories: base grammars of profile 'memo' (shared-prefix alternatives, nullable rules, rules reached at one offset through several contexts, lookaheads calling rules, failing checks, externs) and, for half of the groups, profile 'memows' (skipping and non-skipping 'twin' callers of one offset-sensitive callee, heavy whitespace injection), each compiled in 4 variants (no rule / every rule / two random subsets of rules marked @memoize); for every generated input all variants must return the same ok flag and Debug tree and agree with the reference interpreter; plus generated histories (3-16 inputs, every second one an equal-length variant of its predecessor, re-parsed in a generated order with repetitions) on the all-memoized variant, parsed out of one reused buffer: every result equals the first-time result; every third group is generated with a user context type. Non-trivial = the oracle sees a memoized (rule, offset) evaluated >= 2 times in that parse (a cache hit must have happened), or a history with equal-length inputs; distinct (grammar group, rule, input) / distinct history.",
     "C06": "grammars of profile 'memo' with a zero-width @extern probe at the start of each memoized rule's body (half of the grammars: every rule memoized); observation: probe call log (name, remaining input) and recorded rule entries; oracle: packrat model = reference interpreter answering revisits of memoized (rule, offset) from a table. Checks: every user function call and every rule entry occurs at most as often as in the packrat model (successful and failing evaluations alike); all-memoized grammars: probe calls <= rules x (len + 1). Non-trivial = the plain PEG evaluation attempts some memoized (rule, offset) >= 2 times and the first attempt fails; distinct (grammar, rule, input).",
-    "C07": "structured left-recursive grammars: direct struct style (recursive alternatives first / not first), enum-override style through non-memoized rules, two-level Expr/Term, exotic (recursive reference under lookahead / optional / through a nullable prefix), seeds that match the empty string, one-token growth steps, various callers ([E], {E ';'}, &E, shared-prefix alternatives), @position/@memoize/@no_skip_ws mixes; oracles: (1) interpreter implementing seed-and-grow literally, (2) constructive oracle for `E = l:*E op r:Atom | ... | a:Atom`: input b x1..xn built from the operator list, expected tree folded left directly; termination by tracer fuel / nesting depth. Non-trivial = >= 2 growth steps, or a failing parse that entered the growth loop; distinct (grammar, rule, input).",
+    "C07": "structured left-recursive grammars: direct struct style (recursive alternatives first / not first), enum-override style through non-memoized rules, two-level Expr/Term, exotic (recursive reference under lookahead / optional / through a nullable prefix), seeds that match the empty string, one-token growth steps, various callers ([E], {E ';'}, &E, shared-prefix alternatives), @position/@memoize/@no_skip_ws mixes, value-dependent @check functions on the growing rule in ~17 % of the grammars; oracles: (1) interpreter implementing seed-and-grow literally, (2) constructive oracle for `E = l:*E op r:Atom | ... | a:Atom`: input b x1..xn built from the operator list, expected tree folded left directly; termination by tracer fuel / nesting depth. Non-trivial = >= 2 growth steps, or a failing parse that entered the growth loop; distinct (grammar, rule, input).",
     "C13": "pairs (G, G') where G uses `>Rule` at random depths (inside [], {}, choices, other included bodies; skipping and non-skipping includers; included rules carrying @no_skip_ws/@memoize/@position/@check/@string) and G' is the model with every include replaced by the parenthesised body; compared: public type declarations (text before the private module, byte-equal), and for every input ok flag, Debug tree (positions included) and error position; G is also compared with the interpreter. Non-trivial = the included body was entered on that input inside a choice arm / optional / closure; distinct (grammar pair, rule, input).",
-    "C20": "histories: for each grammar (profile 'memo' + left-recursive shapes) generated lists of inputs are parsed, then re-parsed in a generated order with repetitions, each result must equal its first-time result; schedules: generated rounds of 2-4 (grammar, rule) pairs x 8-40 inputs (every third an equal-length variant of its neighbour) are parsed sequentially (reference) and then by 2-16 threads under a generated assignment, barrier start, every item twice; all results must equal the reference. Interleavings are not controlled (stated limit). Non-trivial = history with equal-length inputs / concurrent round with >= 2 threads and equal-length inputs; distinct histories / rounds.",
-    "C01": "grammars: generator profile 'core' (all operators, literals incl. escapes / case-insensitive, ranges, char, @char classes, $, skipping and non-skipping rules), every rule reachable through an @export @position wrapper; inputs: grammar-directed derivations, mutations of them, alphabet strings (<= max_len bytes); oracle: reference PEG interpreter (accept/reject + consumed bytes), termination by tracer fuel. Non-trivial = the oracle's evaluation had a backtrack after partial consumption, a closure stopped on a partial iteration, a lookahead, a range end-point hit or a case-folded insensitive match; distinct = distinct (grammar, rule, input).",
+    "C20": "histories: for each grammar (profile 'memo' + left-recursive shapes + a sixth from profile 'unicode') generated lists of inputs are parsed, then re-parsed in a generated order with repetitions OUT OF ONE REUSED BUFFER (same address, for equal-length inputs the same address range), each result must equal its first-time result; schedules: generated rounds of 2-4 (grammar, rule) pairs x 8-40 inputs (every third an equal-length variant of its neighbour) are parsed sequentially (reference) and then by 2-16 threads (512 MB stacks, each parsing out of its own reused buffer) under a generated assignment, barrier start, every item twice; in a quarter of the rounds all threads first parse the same, longest input at once; all results must equal the reference. Interleavings are not controlled (stated limit). Non-trivial = history with equal-length inputs / concurrent round with >= 2 threads and equal-length inputs; distinct histories / rounds.",
+    "C01": "grammars: four fifths generator profile 'core', one fifth profile 'unicode' (terminals over the whole Unicode range) (all operators, literals incl. escapes / case-insensitive, ranges, char, @char classes, $, skipping and non-skipping rules), every rule reachable through an @export @position wrapper; inputs: grammar-directed derivations, mutations of them, alphabet strings (<= max_len bytes), rarely long periodic ones, 'pumped' ones (a recursive path of the grammar followed to a nesting depth of up to ~1200, dense around powers of two and round numbers) and ones with an unusual first character (BOM, ZWSP, NUL ...); oracle: reference PEG interpreter (accept/reject + consumed bytes), termination by tracer fuel. Non-trivial = the oracle's evaluation had a backtrack after partial consumption, a closure stopped on a partial iteration, a lookahead, a range end-point hit or a case-folded insensitive match; distinct = distinct (grammar, rule, input).",
     "C02": "grammars: profile 'fields' (nested seq/choice/optional/closure/include around named fields, repeated and multi-type fields, boxed fields, overrides, @string); oracle: interpreter's value rendered as derive(Debug) text, compared textually then structurally. Non-trivial = successful parse in which a binding was abandoned in a failed arm/optional/iteration, or a field received values from >= 2 matches, or an enum-typed field/override was set; distinct (grammar, rule, input).",
     "C04": "grammars: profile 'unicode' (literals/ranges/classes over the whole Unicode range, insensitive literals, char, externs returning correct byte lengths); inputs mix ASCII and multi-byte characters; all three tracer modes under catch_unwind with the cfg(peginator_verif) boundary assertion on; every exposed offset checked (is_char_boundary, <= len), every string/char of the tree must occur in the input. Non-trivial = a terminal was attempted at an offset holding a multi-byte character; distinct (grammar, rule, input).",
     "C08": "grammars: profile 'ws' (skipping and @no_skip_ws rules calling each other, includes, @string, lookaheads, $, char fields, externs, custom Whitespace rules); inputs: derivations with, independently at every token gap, nothing / one of the five ASCII whitespace chars / runs / near misses (\\x0B, U+00A0, U+2003, U+FEFF, ...); oracle: the interpreter only (accept, consumed bytes, tree). Non-trivial = whitespace skipped inside a nested construct, or a near-miss character met at a skip point, or whitespace skipped in a grammar mixing both settings; distinct (grammar, rule, input).",
     "C09": "grammars: profile 'pos' (random subsets of rules @position incl. @string and enum overrides, memoized rules with shared prefixes, multi-byte input, whitespace) plus 1/5 structured left-recursive grammars; oracle: interpreter positions inside the expected Debug tree plus interpreter-free invariants (valid byte span, string == slice, child inside parent, list elements ordered and non-overlapping, root at 0, PegPosition trait == field). Non-trivial = successful parse with >= 2 position nodes and (whitespace skipped | multi-byte consumed | cache revisit/growth); distinct (grammar, rule, input).",
     "C10": "grammars: profile 'core' (1/2), profile 'fields' (1/4; multi-field optionals and closures have their own templates) plus structured left-recursive grammars (1/4; the sentinel clause applies to those whose recursive alternatives come first); failing parses only; oracle: set of all failed attempts F_all and the counted furthest set of the interpreter (lookahead rule per the statement). Checks: position <= len on a boundary, (position, specifics) in F_all; without memo/leftrec position == furthest and specifics among the attempts counted there; never LeftRecursionSentinel. Non-trivial = failing parse whose failed attempts span >= 2 offsets and whose furthest failure is beyond offset 0; distinct (grammar, rule, input).",
-    "C14": "grammars: profile 'hooks' (@check on struct/unit/override/enum/@string/@position/@char rules, @extern with and without result type, under every construct); configurations: without and with user context type (alternating grammars); oracle: interpreter calling the same pure functions; compared: accept, consumed, tree, and the argument log (predicted calls subset/superset; exact sequence without caches), argument type, calls recorded in the user context. Non-trivial = a hook returned false/Err during the parse; distinct (grammar, rule, input).",
+    "C14": "grammars: seven eighths profile 'hooks', one eighth left-recursive shapes with checks on the growing rule (@check on struct/unit/override/enum/@string/@position/@char rules, @extern with and without result type, under every construct); configurations: without and with user context type (alternating grammars); oracle: interpreter calling the same pure functions; compared: accept, consumed, tree, and the argument log (predicted calls subset/superset; exact sequence without caches), argument type, calls recorded in the user context. Non-trivial = a hook returned false/Err during the parse; distinct (grammar, rule, input).",
     "C19": "grammars: profile 'mixed' (memoized rules, failing checks, externs, all constructs); every input parsed plain, with parse_with_trace (IndentedTracer, debug build: underflow panics) and with a recording custom tracer; results must be identical, no panic, recorded entries/exits balanced with the tracer value's own depth equal to the nesting depth, outermost pair = exported rule with the parse result; vs interpreter: no phantom entries, and (no caches) every successful-path invocation reported in order. Non-trivial = trace contains a failing rule or a cache/growth info event; distinct (grammar, rule, input).",
 }
 
@@ -108,7 +108,7 @@ def build(out, profile=None):
         def visit(spans):
             for s in spans:
                 fn = os.path.basename(s.get("file_name", ""))
-                if fn.startswith(("g", "x")) and fn.endswith(".rs"):
+                if re.match(r"^[a-z]\d{3,}", fn) and fn.endswith(".rs"):
                     gids.add(fn[:-3].replace("_glue", ""))
                 exp = s.get("expansion")
                 if exp:
